@@ -803,6 +803,9 @@ impl WorldB {
         if earlier_session {
             obs.count("probe.datagram_of_earlier_client_object_with_same_token");
         }
+        if genuine_for_me && ptype == T_DENIED && self.slots[slot].client.as_ref().map(|c| c.is_connected()).unwrap_or(false) {
+            obs.count("probe.denial_of_own_token_reaches_connected_client");
+        }
         let before = self.client_snap(slot).unwrap();
         let s = &self.slots[slot];
         // was it sealed for the current client object? (server attempt counter at emit vs now is not known to the client; use the token)
